@@ -17,21 +17,21 @@ CLAIMS = {
  "C18": dict(text="chknorm is exact: for every list of coefficients with |x| < 2^30 (superset of the reduce32 range), every position and every bound B <= (q-1)/8 the check returns 1 iff some |x| >= B, no overflow; B > (q-1)/8 always fails; vector wrappers; all bounds of the six sets are in range. Tie: 256 positions x boundary values x all bounds, expected value computed independently.",
              note="The abs trick a - ((a>>31) & 2a) is proved from the two's-complement encoding of & on i32.",
              tech="Lean 4 proof (list induction + omega) + enumerated differential tie", ref="5/C18"),
- "C16": dict(text="Model, code and an independent Python BitPack/SimpleBitPack/HintBitPack agree on every codec and container of the 6 copies (extreme, random and malformed inputs). Proved so far on the faithful i32/u8 model: standard sizes; round trip of the t1 (4 coeff <-> 5 bytes) and t0 (8 coeff <-> 13 bytes) groups for all in-range coefficients without overflow. Remaining codecs (eta, z, w1, hints) are tied but their round-trip theorems are still to be added: partial.",
-             note="PARTIAL: proof covers sizes + t1/t0 groups; eta/z/w1/hint/containers rest on the differential tie against the Python encoder.",
-             tech="Lean 4 proof (bit ops -> arithmetic, omega) + differential tie with independent encoder", ref="5/C16"),
+ "C16": dict(text="Proved on the faithful i32/u8 model, for all in-range inputs and with no overflow: standard sizes of every container; whole-polynomial round trips unpack(pack(p)) = p for t1 (10 bit), t0 (13 bit), eta=2 (3 bit), eta=4 (4 bit), z gamma1=2^17 (18 bit) and 2^19 (20 bit); per-parameter-set codec selection. Model, code and an independent Python BitPack/SimpleBitPack/HintBitPack agree on every codec and container of the 6 copies (extreme, random, malformed inputs, dirty output buffers, crafted hint sections with bad counters/orders).",
+             note="PARTIAL: the hint-section round trip, w1 packing = SimpleBitPack and byte-level equality with the FIPS 204 bit-string definition are not theorems; they rest on the differential tie against the independent Python encoder.",
+             tech="Lean 4 proof (bit ops -> arithmetic, omega, list induction) + differential tie with independent encoder", ref="5/C16"),
  "C19": dict(text="Every vector operation of the model is the component-wise lift (length + per-index theorems for map/zip loops), the matrix product is row-wise accumulated in order j=0.., k_decompose returns (high, low), k_pack_w1 is the concatenation. Tie: each Rust loop of the 3 polyvec modules is compared with the polynomial-level functions of the same build on vectors with pairwise different components, and with an independent HighBits/LowBits.",
              note="The model uses map/zip combinators, so the theorems are about those; the tie is what links each Rust loop (index ranges, transposition, accumulation start) to them.",
              tech="Lean 4 proof (induction over the loop combinators) + differential tie", ref="5/C19"),
- "C13": dict(text="Kernel-checked facts about the ZETAS table regenerated from ntt.rs (tree relations zeta_2k^2=zeta_k, zeta_{2k+1}^2=-zeta_k, zeta_1^2=-1, bound, F=2^64/256, generator 1753 of order 512). The end-to-end refinement theorem (ntt = evaluation, no overflow, < 9q) is not finished: partial. Tie: outputs compared with plain evaluation at 1753^(2 brv8(i)+1), bounds 9q / q, and the schoolbook negacyclic product through chained ntt -> pointwise -> invntt on the code's own outputs.",
-             note="PARTIAL: table obligations proved; the layer-by-layer refinement is future work; evaluation/product correctness currently rests on the tie against the mathematical definition.",
-             tech="Lean 4 proof (decide +kernel on generated tables) + differential tie against naive evaluation", ref="5/C13"),
- "C17": dict(text="Acceptance maps and ranges of the rejection routines (23-bit candidate < 2^23, eta=2 map t-(205t>>10)*5 = t mod 5 in [-2,2], eta=4 in [-4,4]), block counts and nonce layouts proved. Tie: every sampler and vector sampler of the 6/3 copies compared with an independent Python RejNTTPoly/RejBoundedPoly/ExpandMask/SampleInBall over hashlib SHAKE, crafted buffers for the byte-level routines, eta refill path counted.",
-             note="PARTIAL: the filter-form theorem for arbitrary buffers is still to be added; refill of uniform/challenge is modelled, not exercised (no XOF hook).",
-             tech="Lean 4 proof (omega/decide) + differential tie with independent samplers", ref="5/C17"),
- "C12": dict(text="SHAKE model = code = hashlib on every input length 0..3*rate+1, input/output 2-splits, long squeezes, mixed squeezeblocks, absorb_once, stream inits and the permutation on random states. A genuine defect (squeeze index reset per block) was reported by this check and fixed. Sponge split theorems are still to be added: partial.",
-             note="PARTIAL: currently rates/table obligations only; call-pattern independence rests on the tie (model and hashlib).",
-             tech="Lean 4 (table obligations) + differential tie with hashlib as independent oracle", ref="5/C12"),
+ "C13": dict(text="Proved for every input in the documented range, about the checked-semantics model of ntt.rs/poly.rs with ZETAS, F, Q regenerated from the source on every run: (1) no intermediate overflow and outputs < 9q (forward), < q (inverse, margin 256q < 2^31); (2) output i of ntt(a) = a(1753^(2 brv8(i)+1)) mod q (brv8 = 8-bit reversal, an involution, so the points are the 256 odd powers of the 512-th root of unity); (3) invntt_tomont applied to a reduced representative of ntt(a) = 2^32 a mod q; (4) ntt, ntt, pointwise_montgomery, invntt_tomont succeed for all a, b in (-q,q)^256 and give the negacyclic product of a and b mod q with coefficients in (-q,q). The semantic theorems are ring-generic (any commutative ring with q = 0 and 2^32 invertible) and instantiated at Z/q. Tie: model = code on both builds; outputs also compared with plain evaluation and the schoolbook product computed in Python.",
+             note="Table facts (tree relations, forward/inverse constant pairing zeta[2^t+j]*(-zeta[2^(t+1)-1-j]) = 2^64, leaves = odd powers of 1753, 256 F = 2^64) are discharged by decide +kernel on the regenerated table: a changed table entry breaks a proof obligation. Z/q comes from Mathlib (Data.ZMod.Basic).",
+             tech="Lean 4 proof (ring-generic butterfly algebra over a zeta tree, layer induction, range analysis by omega, decide +kernel on generated tables) + differential tie", ref="5/C13"),
+ "C17": dict(text="Proved: rej_uniform on any buffer returns exactly the first `len` accepted 23-bit candidates (< q) of the 3-byte groups, in order, and the count (filter form); candidate < 2^23; eta=2 map t-(205t>>10)*5 = t mod 5 into [-2,2], eta=4 into [-4,4]; block counts and nonce layouts. Tie: every sampler and vector sampler of the 6/3 copies compared with an independent Python RejNTTPoly/RejBoundedPoly/ExpandMask/SampleInBall over hashlib SHAKE; crafted buffers for the byte-level routines; seeds found by search that need a third SHAKE-256 block (eta refill) and 92 challenge seeds per set.",
+             note="PARTIAL: the filter-form theorem exists for rej_uniform only (rej_eta, challenge: maps/ranges + tie); the refill loop of poly_uniform is modelled but not reached by any known seed (probability < 2^-100).",
+             tech="Lean 4 proof (omega/decide, list induction) + differential tie with independent samplers", ref="5/C17"),
+ "C12": dict(text="Proved about the sponge model (any permutation): absorbing a message equals absorbing any 2-split of it (shake128/256 absorb_split), squeezing n bytes = the first n bytes of the block stream, squeezing in two calls = one call (squeeze_split), squeezeblocks = whole blocks of the same stream; rates/round-constant table obligations on the constants regenerated from fips202.rs. Tie: SHAKE model = code = hashlib on every input length 0..3*rate+1, input/output splits, long squeezes, mixed squeezeblocks, absorb_once, stream inits, the permutation on random states. A genuine defect (squeeze index reset per block) was reported by this check and fixed.",
+             note="PARTIAL: Keccak-f[1600] itself is not proved equal to the FIPS 202 step maps; it is tied to hashlib (and to the code) on the explored inputs.",
+             tech="Lean 4 proof (sponge invariants by induction) + differential tie with hashlib as independent oracle", ref="5/C12"),
  "C04": dict(text="The Lean KeyGen model is validated on every run against OpenSSL 3.5.5 ML-DSA-44/65/87 vectors (60) and the NIST Dilithium vectors in the repo's tests, and the code must equal the model byte for byte on KAT, edge and random seeds, seeded and unseeded (RNG tap), raw and API entry points, wrong seed lengths refused. Proved: seeded generation draws nothing and refuses other lengths; unseeded = seeded on the next 32 tape bytes. A genuine defect (ML-DSA-65/87 seed domain separation) was reported by this check and fixed.",
              note="PARTIAL: the algebraic relation t1*2^13+t0 = A s1 + s2 is not yet a theorem; it is implied for the tied inputs by agreement with the KAT-anchored model.",
              tech="Lean 4 proof (structural) + KAT-anchored differential tie", ref="5/C04"),
